@@ -60,9 +60,31 @@ def gen_ring(rng, n):
     return cases
 
 
+def gen_large_then_small(rng, n):
+    """samples at the top of the domain (|value|/precision close to 1e8: the window's sum of squares exceeds 2^53), then at
+    least W small samples that replace them completely: an accumulator that is not an exact integer keeps a residue of the
+    samples that have left the window (no accumulated drift is a clause of the property)"""
+    cases = []
+    for _ in range(n):
+        kind = rng.choice(["var", "var", "avg"])
+        W = rng.choice([2, 3, 5, 8, 16, 33, 64])
+        prec = rng.choice([1.0, 0.5, 0.25, 0.125, 1.0, 1e-2, 1e-3])
+        m = int(1 / prec)
+        ops = []
+        for _ in range(rng.randint(W, 3 * W)):
+            k = rng.randint(99000000, 99999999) * rng.choice([-1, 1, 1])
+            ops.append("U:" + hexf((k + (0.5 if (m & (m - 1)) else 0.0)) / m))
+        for _ in range(rng.randint(W, 2 * W + 2)):
+            k = rng.randint(-9, 9)
+            ops.append("U:" + hexf((k + (0.5 if (m & (m - 1)) else 0.0)) / m))
+        cases.append("%s %s %d %s" % (kind, hexf(prec), W, " ".join(ops)))
+    return cases
+
+
 def gen(rng, tier):
     big = tier == "thorough"
-    return [("average", gen_stats(rng, 12000 if big else 1500, "avg")),
+    return [("large-then-small", gen_large_then_small(rng, 400 if big else 60)),
+            ("average", gen_stats(rng, 12000 if big else 1500, "avg")),
             ("variance", gen_stats(rng, 12000 if big else 1500, "var")),
             ("ring", gen_ring(rng, 8000 if big else 800))]
 
